@@ -387,6 +387,9 @@ use std::sync::Mutex;
 #[derive(Default)]
 pub struct Recorder {
     pub log: Mutex<Vec<LogEntry>>,
+    /// the write lock of the write-ahead log is reported busy for this many more attempts
+    /// (another connection holds it while the recorded request starts)
+    pub busy_left: std::sync::atomic::AtomicUsize,
 }
 
 #[derive(Clone, Debug)]
@@ -405,6 +408,16 @@ impl Recorder {
 }
 
 impl VfsHook for Recorder {
+    fn before(&self, call: &VfsCall) -> Option<i32> {
+        use std::sync::atomic::Ordering::SeqCst;
+        if let VfsCall::ShmLock { offset: 0, flags, .. } = call {
+            if flags & 1 == 0 && flags & 8 != 0 && self.busy_left.load(SeqCst) > 0 {
+                self.busy_left.fetch_sub(1, SeqCst);
+                return Some(5);
+            }
+        }
+        None
+    }
     fn after(&self, call: &VfsCall, rc: i32) -> Option<i32> {
         // reads are not needed for crash images and would bloat the log
         if !matches!(call, VfsCall::Read { .. }) {
